@@ -93,8 +93,13 @@ def flags_of_nodes(nodes):
     return out, balanced and depth == 0
 
 
-def gen_caption(rng, start):
-    """flat (non-nesting) style spans at arbitrary positions over 1-3 lines"""
+def gen_caption(rng, start, span_layouts=False):
+    """flat (non-nesting) style spans at arbitrary positions over 1-3 lines; with span_layouts some spans (style
+    nodes and the text inside) carry a layout of their own"""
+    from pycaption.geometry import Layout, Point, Size, UnitEnum, Alignment, HorizontalAlignmentEnum, VerticalAlignmentEnum
+    lays = [Layout(origin=Point(Size(10, UnitEnum.PERCENT), Size(10, UnitEnum.PERCENT))),
+            Layout(origin=Point(Size(20, UnitEnum.PERCENT), Size(70, UnitEnum.PERCENT)),
+                   alignment=Alignment(HorizontalAlignmentEnum.RIGHT, VerticalAlignmentEnum.TOP))]
     words = ["alpha", "beta", "gamma", "x", "&", "<tag>", "fin."]
     nodes = []
     for ln in range(rng.choice([1, 2, 3])):
@@ -107,12 +112,13 @@ def gen_caption(rng, start):
                 style = rng.choice([{"italics": True}, {"bold": True}, {"underline": True}, {"italics": True, "bold": True},
                                     {"italics": True, "underline": True, "bold": True}])
                 span_words = rng.choice([0, 1, 2])
-                nodes.append(ST(True, dict(style)))
+                lay = rng.choice(lays) if (span_layouts and rng.random() < 0.6) else None
+                nodes.append(ST(True, dict(style), lay))
                 for j in range(span_words):
-                    nodes.append(T(rng.choice(words) + (" " if j + 1 < span_words else "")))
+                    nodes.append(T(rng.choice(words) + (" " if j + 1 < span_words else ""), lay))
                     if rng.random() < 0.25 and j + 1 < span_words:
-                        nodes.append(BR())          # a span across a break
-                nodes.append(ST(False, dict(style)))
+                        nodes.append(BR(lay))          # a span across a break
+                nodes.append(ST(False, dict(style), lay))
                 i += max(1, span_words)
             else:
                 nodes.append(T(rng.choice(words)))
@@ -191,6 +197,25 @@ def bounded(ctx, b):
             b.guard((label, i), one, sample={"path": label, "nodes": [[repr(n_) for n_ in c_.nodes] for c_ in caps]})
         roundtrip(DFXPWriter, DFXPReader, "en-US", ("italics",), "dfxp->dfxp")
         roundtrip(SAMIWriter, SAMIReader, "en-US", KEYS, "sami->sami")
+        if i % 3 == 0:
+            # the other DFXP writers and options, on captions whose spans may carry a layout of their own
+            from pycaption.dfxp.extras import SinglePositioningDFXPWriter, LegacyDFXPWriter
+            caps_l = [gen_caption(rng, (j + 1) * 2 * 10 ** 6, span_layouts=True) for j in range(rng.choice([1, 2]))]
+            cs_l = CaptionSet({"en-US": CaptionList(caps_l)})
+            orig_l = [flags_of_nodes(c_.nodes) for c_ in caps_l]
+            for label, mk in (("dfxp(inline positioning)->dfxp", lambda: DFXPWriter(write_inline_positioning=True)),
+                              ("dfxp(single positioning)->dfxp", lambda: SinglePositioningDFXPWriter()),
+                              ("dfxp(no relativize)->dfxp", lambda: DFXPWriter(relativize=False, fit_to_screen=False))):
+                def opt(label=label, mk=mk, cs_l=cs_l, orig_l=orig_l):
+                    doc = mk().write(cs_l)
+                    back = DFXPReader().read(doc).get_captions("en-US")
+                    got = [flags_of_nodes(c_.nodes) for c_ in back]
+                    g2 = [strip_breaks(only(fl, ("italics",))) for fl, _ in got]
+                    e2 = [strip_breaks(only(fl, ("italics",))) for fl, _ in orig_l]
+                    return g2 == e2 and all(bal for _, bal in got), {
+                        "path": label, "got": ["".join(c for c, f in x if f and any(f)) for x in g2],
+                        "expected_marked_characters": ["".join(c for c, f in x if f and any(f)) for x in e2], "doc": doc[-700:]}
+                b.guard((label, i), opt, sample={"path": label})
 
         def cross(label, W1, R1, lang1, W2, R2, lang2, keep):
             def one():
